@@ -8,21 +8,24 @@
 (* (a plain sample is the pool of itself) or a physically merged sample      *)
 (* whose alignments are the union of the alignments of its members.          *)
 (*                                                                           *)
-(*   Encode(u) : reads = bag union of the members' reads, then de-duplicated *)
-(*               into (distinct read, count)                                 *)
+(*   Encode(u) : reads = bag union over the (member, file) pairs of the unit  *)
+(*               of the member's reads in that file (a file may hold several *)
+(*               samples: layouts "sep" / "one"), then de-duplicated into    *)
+(*               (distinct read, count)                                      *)
 (*   Call(u)   : rng is re-seeded; posterior[u] = F(reads, ploidy, rng);     *)
 (*               the fit consumes randomness                                 *)
 (*   UnionHaps : (assemble) haps = union over units of the haplotypes whose  *)
 (*               posterior support passes the threshold, by summed dosage    *)
-(*   Label(u)  : the mode genotype written through the labels, "." for       *)
+(*   Label(u)  : the mode genotype written through the labels (allele        *)
+(*               NUMBERS in the run-wide list, unbounded), "." for           *)
 (*               haplotypes that are not in the list                         *)
 (*                                                                           *)
 (* F is uninterpreted: a posterior is the term [bag, ploidy, rng at start],  *)
 (* so equality of columns is equality of everything the computation could    *)
 (* depend on.  TLC enumerates every pair of runs (A, B) whose unit contents  *)
 (* satisfy A \subseteq B (subsets, orders, pool maps incl. a sample in two   *)
-(* pools, pool vs merged sample) and checks the relations the property       *)
-(* states on the two-run product.                                            *)
+(* pools, pool vs merged sample, each run in either file layout) and checks  *)
+(* the relations the property states on the two-run product.                 *)
 EXTENDS Integers, Sequences, FiniteSets, TLC, Json, FlowRelations
 
 CONSTANTS MaxLen,        \* maximal number of units (columns) in a run
